@@ -145,9 +145,32 @@ def _run_base(ctx):
     ctx.inst('R04.1', STR + ':output_marker', 'new_output(%r, %s)' % (otype, sorted(kws)), not bad,
              'marker outputs are valid %s outputs in every format minor 0-5' % otype if not bad else 'marker output invalid for minors %s' % bad, calls[0])
     # metadata is free-form wherever conflict records go
-    for p in ('/metadata', '/cells/*/metadata', '/cells/*/outputs/*/metadata'):
+    import re as _re
+    rec_paths = sorted(path for path, strategies in table.items() if 'record-conflict' in strategies)
+    if len(rec_paths) < 3:
+        raise AnalysisError('strategy table: fewer than three paths carry the record-conflict strategy (%s)' % rec_paths)
+
+    def _admits_record(n):
+        """may an object of this schema node carry the key `nbdime-conflicts` with an OBJECT value?"""
+        def obj_ok(sub):
+            if sub is True or sub is None:
+                return True
+            if sub is False:
+                return False
+            sub = sch.deref(sub) if isinstance(sub, dict) else sub
+            t = sub.get('type') if isinstance(sub, dict) else None
+            return t is None or t == 'object' or (isinstance(t, list) and 'object' in t)
+        if 'nbdime-conflicts' in n.get('properties', {}):
+            return obj_ok(n['properties']['nbdime-conflicts'])
+        for pat, sub in n.get('patternProperties', {}).items():
+            if _re.search(pat, 'nbdime-conflicts') and not obj_ok(sub):
+                return False
+        if any(_re.search(pat, 'nbdime-conflicts') for pat in n.get('patternProperties', {})):
+            return True
+        return obj_ok(n.get('additionalProperties', True))
+    for p in rec_paths:
         nodes = [n for n in sch.at(p) if isinstance(n, dict)]
-        ok = bool(nodes) and all(n.get('additionalProperties', True) is not False for n in nodes)
+        ok = bool(nodes) and all(_admits_record(n) for n in nodes)
         ctx.inst('R04.1', 'nbformat schema', '%s additionalProperties' % p, ok, 'free-form: the nbdime-conflicts record is admissible' if ok else
                  'metadata is closed at %s: recorded conflicts make the notebook invalid' % p, None)
 
